@@ -2,6 +2,7 @@
 //! property has its own driver binary under `src/bin/` (`c08`, ...), invoked as
 //! `<driver> --in scenarios.ndjson --out trace.ndjson`.
 pub mod common;
+pub mod scene;
 
 #[global_allocator]
 static GLOBAL: common::CountingAlloc = common::CountingAlloc;
